@@ -159,6 +159,27 @@ def check(ctx, rep):
         rep.ob('normalise.mantissa-below-limit', '%s: %s' % (fn.name, norm(c)), ok,
                'a mantissa equal to the limit is kept: it does not fit the mantissa field and the packed number loses its sign / exponent', ctx.where(c))
     rep.floor('normalise.mantissa-below-limit', len(cmp_sites), 3, 'tests against _den_upper')
+    # Float._bring_to_range(man, exp, lower, upper) leaves |man| in (lower, upper]: the callers pass (2^(n-1) - 1, 2^n - 1),
+    # so a mantissa equal to `upper` already fits n bits and must stay, and one equal to `lower` has a clear top bit and must move
+    br = ctx.fn(N + ':Float._bring_to_range')
+    loops = [w for w in br.body if isinstance(w, ast.While)]
+    shape = []
+    for w in loops:
+        t = w.test
+        side = None
+        if isinstance(t, ast.Compare) and len(t.ops) == 1 and norm(t.left) == 'abs(man)' and isinstance(t.comparators[0], ast.Name):
+            side = (type(t.ops[0]).__name__, t.comparators[0].id)
+        steps = sorted(norm(st) for st in w.body)
+        shape.append((side, steps))
+    rep.ob('normalise.bring-to-range-half-open', '_bring_to_range: while |man| <= lower shift left, while |man| > upper shift right',
+           shape == [(('LtE', 'lower'), ['exp -= 1', 'man <<= 1']), (('Gt', 'upper'), ['exp += 1', 'man >>= 1'])],
+           'a mantissa equal to `upper` (all ones) would be shifted out of the normalised range, or one equal to `lower` kept with a clear top bit: %r' % (shape,), ctx.where(br))
+    calls = [c for fn in ctx.idx.functions(N) for c in own_nodes(fn) if isinstance(c, ast.Call) and norm(c.func) == 'self._bring_to_range']
+    for c in calls:
+        lo, hi = (norm(a) for a in c.args[2:4])
+        ok = (lo, hi) in (('self._posmask', 'self._mask'), ('self._den_mask >> 4', 'self._den_upper >> 4'))
+        rep.ob('normalise.bring-to-range-half-open', '_bring_to_range called with a (2^(n-1)-1, 2^n-1) or (2^k, 2^(k+1)) pair: (%s, %s)' % (lo, hi), ok, '', ctx.where(c))
+    rep.floor('normalise.bring-to-range-half-open', len(calls), 3, 'callers of _bring_to_range')
     for cls in ('Single', 'Double'):
         up = ctx.cf.fold(ctx.idx.locate('%s:%s._den_upper' % (N, cls)), ctx.mod(N), {'_den_mask': ctx.cf.fold(ctx.idx.locate('%s:%s._den_mask' % (N, cls)), ctx.mod(N))})
         mask = ctx.cf.fold(ctx.idx.locate('%s:%s._den_mask' % (N, cls)), ctx.mod(N))
@@ -174,6 +195,8 @@ def variants(ctx):
     return [
         Va('normalise-keeps-mantissa-at-limit', 'break', N,
            in_fn('Float._normalise', lambda fn: mu.replace_expr(fn, mu.text_is('man >= self._den_upper'), 'man > self._den_upper')), expect='normalise.mantissa-below-limit'),
+        Va('bring-to-range-shifts-all-ones', 'break', N,
+           in_fn('Float._bring_to_range', lambda fn: mu.replace_expr(fn, mu.text_is('abs(man) > upper'), 'abs(man) >= upper')), expect='normalise.bring-to-range-half-open'),
         Va('mks-goes-through-double', 'break', V,
            in_fn('mks_', lambda fn: mu.replace_expr(fn, mu.text_is('to_single(x)'), 'to_double(x)')), expect='mk.verbatim'),
         Va('cvs-reads-8', 'break', V,
